@@ -47,17 +47,32 @@ class Script:
         self.keys[kid] = b
         return kid
 
-    def key_in_bucket(self, ln, n, bucket, tries=200000):
-        """a generated key of length ln whose placement hash lands in `bucket` of an n-bucket table"""
+    def key_in_bucket(self, ln, n, bucket, tries=3000000):
+        """a key of length ln whose placement hash lands in `bucket` of an n-bucket table (n a power of two):
+        solved directly for ln >= 8 (the hash is invertible chunk by chunk), searched for shorter keys"""
+        if not hasattr(self, "_krng"):
+            self._krng = random.Random(self.idbase * 7919 + 17)
+        rng = self._krng
+        if ln >= 8:
+            for _ in range(50):
+                h = (rng.getrandbits(64) & ~(n - 1)) | bucket
+                b = layout.key_for_hash(ln, h, rng)
+                if b not in self.keys.values():
+                    self.nk += 1
+                    kid = self.idbase + self.nk
+                    self.pk.append({"id": kid, "hex": b.hex()})
+                    self.keys[kid] = b
+                    return kid
+            raise RuntimeError("no distinct key found")
         for _ in range(tries):
-            self.nk += 1
-            kid = self.idbase + self.nk
-            b = layout.gen_bytes(ord('k'), kid, ln)
+            b = bytes(rng.getrandbits(8) for _ in range(ln))
             if layout.khash(b) % n == bucket and b not in self.keys.values():
-                self.pk.append({"id": kid, "len": ln})
+                self.nk += 1
+                kid = self.idbase + self.nk
+                self.pk.append({"id": kid, "hex": b.hex()})
                 self.keys[kid] = b
                 return kid
-        raise RuntimeError("no key found for bucket")
+        raise RuntimeError("no key found for bucket %d of %d (len %d)" % (bucket, n, ln))
 
     def val(self, ln):
         if ln in self.vbylen:
@@ -314,4 +329,63 @@ def gen_reloc(seed, idbase=0, nops=150, width=16384, nkeys=5, name="reloc"):
     s.op("new_process")
     s.op("decode", dir="d", name="m", native=True)
     s.op("child_dump", dir="d", name="m", kt="bytes")
+    return s
+
+
+FLAVOURS = ["iter", "iter_mut", "keys", "values", "into_iter", "ref_into_iter"]
+
+
+def gen_iter(seed, idbase=0, nb=("BucketsSize", 128), kt="bytes", rounds=4, name="iter"):
+    """C04: occupancy patterns the bitmap scan treats as distinct cases (bucket n-9, n-8, n-1, first and
+    last bucket of 8-byte strides), random insert/overwrite/delete in between, emptied-again maps;
+    all iterator flavours after every phase."""
+    rng = random.Random(seed)
+    s = Script(idbase, design=True, name=name)
+    n = layout_buckets(nb)
+    s.meta.update(kind="iter", seed=seed, nb=list(nb), n=n)
+    s.op("open_db", db=0, dir="d")
+    s.op("map", h=1, db=0, name="m", kt=kt, params={"buckets": list(nb)})
+    dec = dict(dir="d", name="m", flush_h=1, native=True)
+    vids = [s.val(x) for x in (3, 20, 100, 0)]
+
+    def iters(k=3):
+        fl = FLAVOURS if k >= len(FLAVOURS) else rng.sample(FLAVOURS, k)
+        for f in fl:
+            s.op("iter", h=1, flavour=f)
+
+    iters(6)                                            # fresh, empty
+    special = {0, n - 1, n - 8, n - 9, n - 10, n - 64, n - 65, 7, 8, 63, 64, 65, 71, 72, 119, 120, 127, 128, n // 2, n // 2 - 1}
+    special = sorted(b for b in special if 0 <= b < n)
+    live = []
+    for r in range(rounds):
+        targets = rng.sample(special, min(len(special), rng.randrange(1, 5))) + [rng.randrange(n) for _ in range(rng.randrange(0, 4))]
+        for b in targets:
+            for _ in range(rng.randrange(1, 3)):        # chains of one or two
+                k = s.key_in_bucket(rng.choice([8, 10, 12, 17]) if n > 4096 else rng.choice([4, 8, 10, 12]), n, b)
+                s.op("put", h=1, k=k, v=rng.choice(vids))
+                live.append(k)
+        s.op("decode", **dec)
+        s.op("len", h=1)
+        iters(6 if r == 0 else 3)
+        # overwrite some, delete some (oldest of a chain included)
+        for k in rng.sample(live, min(len(live), 3)):
+            s.op("put", h=1, k=k, v=rng.choice(vids))
+        dels = rng.sample(live, rng.randrange(0, len(live) + 1) if r % 2 else min(2, len(live)))
+        for k in dels:
+            s.op("del", h=1, k=k)
+            live.remove(k)
+        s.op("decode", **dec)
+        iters(3)
+    for k in list(live):                                 # emptied again
+        s.op("del", h=1, k=k)
+    live = []
+    s.op("decode", **dec)
+    iters(6)
+    k = s.key_in_bucket(8, n, special[-1])
+    s.op("put", h=1, k=k, v=vids[0])
+    iters(2)
+    s.op("new_process")
+    s.op("open_db", db=0, dir="d")
+    s.op("map", h=1, db=0, name="m", kt=kt)
+    iters(2)
     return s
